@@ -3,6 +3,9 @@ import PEval.Properties.Pipeline
 import PEval.Properties.C04Dict
 import PEval.Properties.C04Tables
 import PEval.Properties.C04Scene
+import PEval.Properties.C04Perfect
+import PEval.Properties.C04Pipeline
+import PEval.Properties.C04Area
 /-!
 # C04 — AP, APH and mAP equal the interpolated precision-recall area, within [0,1] (root)
 
@@ -19,6 +22,15 @@ import PEval.Properties.C04Scene
 
 * `PEval/Properties/C04Tables.lean` (namespace `PEval.C04`): the decision tables / expressions that `harness/dt_c04.py`
   extracts from the real `Ap` / `Map` code on every run equal the model's skeletons (`…_code_table_eq_model`).
+
+* `PEval/Properties/C04Perfect.lean` (namespace `PEval.C04`): "AP = 1 when every ground truth is matched by a correct
+  estimate and no wrong estimate outranks one, 0 when no estimate is correct" for the whole constructor `apOf` on results
+  and ground truths; APH in the perfect case; no ground truth / no result; totality.
+* `PEval/Properties/C04Pipeline.lean` (namespace `PEval.PipelineProps`): `is_detection_2d` free; the "AP = 1" clause on
+  every `Map` of a pipeline frame with the one-to-one hypotheses discharged by C01.
+
+* `PEval/Properties/C04Area.lean` (namespace `PEval.C04`): index-based area = recall-based area ("maximum precision at any
+  higher recall") for non-decreasing recalls; `Map`'s i-th AP is the `Ap` of the i-th label on the bucket looked up by key.
 
 The core is a separate module only because the composition imports it (no import cycle); the audit
 of `./check C04` imports this root and therefore sees both.
